@@ -201,7 +201,7 @@ class FalseLiteral(Literal[bool]):
         return "false"
 
     def __eq__(self, other: object) -> bool:
-        return isinstance(other, TrueLiteral) and self.value == other.value
+        return isinstance(other, FalseLiteral) and self.value == other.value
 
     def __hash__(self) -> int:
         return hash(self.value)
